@@ -2050,6 +2050,46 @@ fn finding_c18() -> Option<String> {
     }
     None
 }
+fn finding_c09() -> Option<String> {
+    // F-C09-1: a notification in flight when unsubscribe() returns still reaches the subscriber (do_notify iterates a
+    // snapshot taken outside the subscribers lock).  Subscriber 0 parks inside on_notify of action 1; meanwhile
+    // subscriber 1 is unsubscribed (the call returns); then subscriber 0 is let go.
+    use std::sync::mpsc;
+    struct Parked {
+        log: Log,
+        entered: Mutex<mpsc::Sender<()>>,
+        gate: Mutex<mpsc::Receiver<()>>,
+    }
+    impl Subscriber<St, Ac> for Parked {
+        fn on_notify(&self, s: &St, a: &Ac) {
+            self.log.lock().unwrap().push(Ev::Notify(0, *s, *a));
+            let _ = self.entered.lock().unwrap().send(());
+            let _ = self.gate.lock().unwrap().recv_timeout(Duration::from_secs(5));
+        }
+    }
+    let log: Log = Arc::new(Mutex::new(vec![]));
+    let store = StoreBuilder::<St, Ac>::new(0).with_reducer(Box::new(Rd { id: 0, cfg: RCfg { dispatch: true, effect: 0 }, log: log.clone() })).build().unwrap();
+    let (entered_tx, entered_rx) = mpsc::channel::<()>();
+    let (gate_tx, gate_rx) = mpsc::channel::<()>();
+    let _h0 = store.add_subscriber(Arc::new(Parked { log: log.clone(), entered: Mutex::new(entered_tx), gate: Mutex::new(gate_rx) }));
+    let h1 = store.add_subscriber(Arc::new(Sb { id: 1, log: log.clone() }));
+    store.dispatch(1).unwrap();
+    if entered_rx.recv_timeout(Duration::from_secs(5)).is_err() {
+        let _ = gate_tx.send(());
+        store.stop();
+        return None;
+    }
+    h1.unsubscribe(); // returns: the subscribers lock is free while subscriber 0 is being notified
+    let returned_at = log.lock().unwrap().len();
+    let _ = gate_tx.send(());
+    store.stop();
+    let got = log.lock().unwrap().clone();
+    let late: Vec<&Ev> = got[returned_at..].iter().filter(|e| matches!(e, Ev::Notify(1, _, _))).collect();
+    if !late.is_empty() {
+        return Some(found("finding-c09", "O-C09-k-notify-under-lock", "two direct subscribers; subscriber 1 is unsubscribed while subscriber 0 is being notified of action 1".into(), "subscriber 1 receives nothing after unsubscribe() has returned".into(), format!("{:?}", late)));
+    }
+    None
+}
 fn finding_c14() -> Option<String> {
     // F-C14-1: dropping an iterator that still has an unread pair hangs (watchdog 2 s)
     let store = StoreBuilder::<St, Ac>::new(0).with_reducer(Box::new(crate::reducer::FnReducer::from(|s: &St, a: &Ac| DispatchOp::Dispatch(s + a, None)))).build().unwrap();
@@ -2095,6 +2135,8 @@ fn verif_witness() {
                 "balance" => suite_balance(),
                 "finding-c11" => finding_c11(),
                 "finding-c18" => finding_c18(),
+            "finding-c09" => finding_c09(),
+                "finding-c09" => finding_c09(),
                 "finding-c14" => finding_c14(),
                 _ => None,
             };
@@ -2121,6 +2163,7 @@ fn verif_witness() {
             "balance" => replay_balance(case),
             "finding-c11" => finding_c11(),
             "finding-c18" => finding_c18(),
+            "finding-c09" => finding_c09(),
             "finding-c14" => finding_c14(),
             _ => None,
         }
